@@ -503,7 +503,36 @@ def hand_histories() -> list[dict]:
     u1 = dict(u0, **{"pkg/name.py": sub})
     m0 = {"main.py": "import pkg.name\ny: str = pkg.name.f0()\n", "pkg/__init__.py": ""}
     m1 = dict(m0, **{"pkg/name.py": sub})
+    # --- directed histories for seeded bugs that random histories miss (each verified against a scratch mutant)
+    chain = {"pkg/q1.py": "import pkg.q2\n", "pkg/q2.py": "import pkg.q3\n", "pkg/q3.py": "import pkg.q4\n",
+             "pkg/q4.py": "import pkg.q5\n", "pkg/q5.py": "Z = 1\n"}
+    # a,b form an import cycle; a uses pkg.mod.C with only `import pkg` (indirect dependency); z, two levels below a, stops
+    # importing pkg.mod inside a function (no interface hash changes); pkg.mod stays in the build through `other` and is
+    # scheduled after a: a must be re-checked (verify_transitive_deps slow path) and report the undefined name
+    t0 = {"main.py": "import a\nimport other\n", "a.py": "import pkg\nimport b\nimport y\nx: pkg.mod.C\n", "b.py": "import a\n",
+          "y.py": "import z\n", "z.py": "def h() -> None:\n    import pkg.mod\n", "other.py": "import pkg.mod\n",
+          "pkg/__init__.py": "", "pkg/mod.py": "import pkg.q1\nclass C: pass\n", **chain}
+    t1 = dict(t0, **{"z.py": "def h() -> None:\n    pass\n"})
+    # an unchanged importer whose three missing plain modules appear in one edit (m2 is scheduled after main)
+    g = "def g(x: int) -> None: ...\n"
+    s0 = {"main.py": "import m1\nimport m2\nimport m3\nm1.g('s')\nm2.g('s')\nm3.g('s')\n", "c1.py": "import c2\n",
+          "c2.py": "import c3\n", "c3.py": "Z = 1\n"}
+    s1 = dict(s0, **{"m1.py": g, "m2.py": "import c1\n" + g, "m3.py": g})
+    # `import m  # type: ignore`, then m is deleted while the importer is untouched (imports_ignored of the cached meta)
+    i0 = {"main.py": "import user\n", "user.py": "import m  # type: ignore\n", "m.py": "X = 1\n"}
+    i1 = {k: v for k, v in i0.items() if k != "m.py"}
+    # b.py replaced by b.pyi with IDENTICAL content (finding F7)
+    p0 = {"main.py": "from b import y\n", "b.py": "from c import y\n", "c.py": "y = 1\n"}
+    p1 = {"main.py": "from b import y\n", "b.pyi": "from c import y\n", "c.py": "y = 1\n"}
+    # the once-per-build missing-imports note (finding F8): main is replayed with its note, a is re-checked and gets one too
+    n0 = {"main.py": "import a\nimport missing2\n", "a.py": "import missing1\n"}
+    n1 = {"main.py": "import a\nimport missing2\n", "a.py": "import missing1\n# edited\n"}
     return [
+        H(9010, "directed:trans-dep-hash-of-cycle", "entry", t0, t1, t0),
+        H(9011, "directed:unsuppress-several-appearing-modules", "entry", s0, s1, s1),
+        H(9012, "directed:type-ignore-on-import-of-deleted-module", "entry", i0, i1, i0),
+        H(9013, "F7:py-replaced-by-identical-pyi", "entry", p0, p1, p0),
+        H(9014, "only-once-note-placement:missing-imports", "entry", n0, n1),
         H(9001, "F6:from-import-name-becomes-submodule", "entry", b0, b1),
         H(9002, "F6:from-import-name-becomes-submodule", "all", b0, b1, b0, b1),
         H(9003, "hand:from-import-used-name-becomes-submodule", "entry", u0, u1, u0),
@@ -686,6 +715,10 @@ def describe_diff(w: dict, c: dict) -> tuple[str, str]:
         only_c += [x for x in b if x not in a]
     codes = sorted({"warm-only:" + (re.findall(r"\[([\w-]+)\]\s*$", x) or ["note"])[0] for x in only_w}
                    | {"cold-only:" + (re.findall(r"\[([\w-]+)\]\s*$", x) or ["note"])[0] for x in only_c})
+    NOTE = "note: See https://mypy.readthedocs.io/en/stable/running_mypy.html#missing-imports"
+    if (only_w or only_c) and all(x.endswith(NOTE) for x in only_w + only_c) and cw["status"] == cc["status"]:
+        return "only-once-note-placement:missing-imports", (
+            f"the once-per-build note is placed differently / printed twice: only in warm {only_w[:3]}, only in cold {only_c[:3]}")
     if cw["crash"] != cc["crash"]:
         codes.append("crash:" + ("warm" if cw["crash"] else "cold"))
     if not codes and cw["status"] != cc["status"]:
@@ -695,6 +728,23 @@ def describe_diff(w: dict, c: dict) -> tuple[str, str]:
     what = (f"status warm={cw['status']} cold={cc['status']}; only in warm: {only_w[:4]}; only in cold: {only_c[:4]}"
             + (f"; warm crash: {(w.get('crash') or '')[-300:]}" if w.get("crash") else ""))
     return ",".join(codes), what
+
+
+def is_f6(w: dict, c: dict, files: dict) -> bool:
+    """The divergence is exactly finding F6: warm-only `Module "p" has no attribute "n"` where p/n.py(i) exists now."""
+    cw, cc = canon(w), canon(c)
+    only_w = [x for f in cw["files"] for x in cw["files"][f] if x not in cc["files"].get(f, [])]
+    only_c = [x for f in cc["files"] for x in cc["files"][f] if x not in cw["files"].get(f, [])]
+    if not only_w or only_c:
+        return False
+    for x in only_w:
+        m = re.search(r'error: Module "([\w.]+)" has no attribute "(\w+)"', x)
+        if not m:
+            return False
+        base = os.path.join(*m.group(1).split("."), m.group(2))
+        if not any(p in files for p in (base + ".py", base + ".pyi", os.path.join(base, "__init__.py"))):
+            return False
+    return True
 
 
 def shrink(h: dict, cfg: str, pre: Prewarmed, base: str, budget_s: float) -> dict:
@@ -938,7 +988,7 @@ def correspondence(ctx, hs: list[dict], results: list[dict], limit: int) -> None
 # ------------------------------------------------------------------ the check
 
 def s_oracle(ctx, hs: list[dict], cfgs: list[str], pre: Prewarmed, base: str, true_cold: bool) -> list[dict]:
-    jobs = [(h, c) for h in hs for c in cfgs]
+    jobs = [(h, c) for h in hs for c in (cfgs if h["idx"] < 9000 else [x for x in cfgs if x in ("fs-json", "sqlite-bin")] or cfgs)]
     t = time.time()
 
     def one(job):
@@ -981,7 +1031,12 @@ def judge(ctx, hs: list[dict], results: list[dict], pre: Prewarmed, base: str) -
                               {"states": h["states"][: rec['k'] + 1], "roots": h["roots"]})
             if canon(w) != canon(c):
                 key, what = describe_diff(w, c)
-                key = h.get("key") or ("warm!=cold:" + key)
+                if key.startswith("only-once-note-placement:"):
+                    pass
+                elif is_f6(w, c, h["states"][rec["k"]]["files"]):
+                    key = "F6:from-import-name-becomes-submodule"
+                else:
+                    key = h.get("key") or ("warm!=cold:" + key)
                 failing.setdefault(key, (h, r["cfg"], rec["k"], what))
     ctx.add("evaluations", n_steps)
     ctx.cov["warm_vs_cold_steps"] = n_steps
@@ -1027,7 +1082,7 @@ def run(ctx) -> None:
         t = time.time()
         pre.build(cfgs)
         ctx.log(f"pre-warmed typeshed caches for {cfgs} ({time.time()-t:.0f}s)")
-        nh = ctx.n(int(os.environ.get("C02_QUICK_N", "12")), int(os.environ.get("C02_THOROUGH_N", "300")))
+        nh = ctx.n(int(os.environ.get("C02_QUICK_N", "8")), int(os.environ.get("C02_THOROUGH_N", "300")))
         hs = hand_histories() + [gen_history(ctx.seed, i) for i in range(nh)]
         ctx.cov["histories"] = len(hs)
         ctx.cov["hand_histories"] = len(hs) - nh
